@@ -40,6 +40,13 @@ def run_cpu(run, fams, rule, mode, mc=True):
         run.mc(SPECDIR, "SM83_MC.tla", "SM83_MC.cfg", env={"LATTICE": "small" if run.tier == "quick" else "big"},
                name="every defined opcode x boundary lattice; frame conditions, cycle table, access plan, ALU identities",
                heap="24g", timeout=3000, workers=12)
+    if mc and mode in ("C01", "C02"):
+        # the repository's own instruction table (lengths, clock cycles, flag columns) as an independent description
+        d = os.path.join(run.tmp, "tr-cpu-meta")
+        os.makedirs(d, exist_ok=True)
+        _, sums, _ = run.drive("cpu", "meta", "-out", d)
+        run.mc(SPECDIR, "SM83_Meta.tla", "SM83_Meta.cfg", env={"TRACE": sums[0]["files"][0]}, workers=4,
+               name="ILen / CyclesDoc / Exec's flag effects against the 501 rows of instruction_metadata.go")
     files = []
     for fam in fams:
         fs, _ = run.gen("cpu", fam=fam)
